@@ -550,7 +550,7 @@ impl DrawState {
             // Check here for bar lines that exceed the terminal height
             if matches!(line, LineType::Bar(_)) {
                 // Stop here if printing this bar would exceed the terminal height
-                if real_height + line_height > term.height().into() {
+                if real_height.saturating_add(line_height) > term.height().into() {
                     break;
                 }
 
@@ -568,7 +568,10 @@ impl DrawState {
             if idx + 1 == self.lines.len() {
                 // For the last line of the output, keep the cursor on the right terminal
                 // side so that next user writes/prints will happen on the next line
-                let last_line_filler = line_height.as_usize() * term_width - line.console_width();
+                let last_line_filler = line_height
+                    .as_usize()
+                    .saturating_mul(term_width)
+                    .saturating_sub(line.console_width());
                 term.write_str(&" ".repeat(last_line_filler))?;
             }
         }
